@@ -98,21 +98,21 @@ Fixpoint drop {A} (n : nat) (l : list A) : list A :=
   | S n', _ :: t => drop n' t
   end.
 
-(* fuel = length of the input; each step consumes at least one character *)
-Fixpoint split_aux (fuel : nat) (sep : str) (cur : str) (x : str) : list str :=
-  match fuel with
-  | O => [rev cur ++ x]
-  | S f =>
-    match x with
-    | [] => [rev cur]
-    | c :: t =>
-      if startswith sep x
-      then rev cur :: split_aux f sep [] (drop (List.length sep) x)
-      else split_aux f sep (c :: cur) t
+(* structural recursion on the input; `skip` counts the remaining characters of a separator
+   occurrence that has just been matched *)
+Fixpoint split_go (sep : str) (skip : nat) (cur : str) (x : str) : list str :=
+  match x with
+  | [] => [rev cur]
+  | c :: t =>
+    match skip with
+    | S k => split_go sep k cur t
+    | O => if startswith sep x
+           then rev cur :: split_go sep (List.length sep - 1) [] t
+           else split_go sep 0 (c :: cur) t
     end
   end.
 
-Definition split (sep x : str) : list str := split_aux (S (List.length x)) sep [] x.
+Definition split (sep x : str) : list str := split_go sep 0 [] x.
 
 Fixpoint contains (sep x : str) : bool :=
   match x with
